@@ -2753,8 +2753,12 @@ impl<'a> Visitor<'a, '_, Error> for JSONValidator<'a> {
         Ok(())
       }
       Value::Number(n) => {
-        if is_ident_uint_data_type(self.state.cddl, ident) && n.is_u64() {
-          return Ok(());
+        if is_ident_uint_data_type(self.state.cddl, ident) {
+          // uint = #0: a negative number must not fall through to the generic
+          // "is an integer" branch below
+          if n.is_u64() {
+            return Ok(());
+          }
         } else if is_ident_nint_data_type(self.state.cddl, ident) {
           if let Some(n) = n.as_i64() {
             if n.is_negative() {
